@@ -1271,7 +1271,7 @@ def optimize_grid(data, model_func, pts, grid,
         for indices, temp in numpy.ndenumerate(fout):
             # This is awkward, because we need to access grid[:,indices]
             grid_indices = tuple([slice(None,None,None)] + list(indices))
-            thetas[indices] = _theta_store[tuple(grid[grid_indices])]
+            thetas[indices] = _theta_store[tuple(numpy.atleast_2d(grid)[grid_indices])]
     else:
         xopt = outputs
     xopt = _project_params_up(xopt, fixed_params)
